@@ -440,6 +440,19 @@ def fields(mon, spec):
                     report(label, 'write', 'writing %#x to %s over %#010x gives %#010x, expected %#010x (bits %s)' % (
                         v, label, bg, inst.value, exp, positions))
 
+        # a raw write of the register image between two reads, with no field write in between: a view that remembers what
+        # it decoded last time shows only here
+        for a_, b_ in zip(backgrounds, backgrounds[1:] + backgrounds[:1]):
+            inst.value = a_
+            get()
+            inst.value = b_
+            mon.res['evaluations'] += 1
+            got = get()
+            exp = gather(b_, positions)
+            if got != exp:
+                report(label, 'read-after-raw-write', 'reading %s after the image changed from %#010x to %#010x gives %r, bits %s give %#x' % (
+                    label, a_, b_, got, positions, exp))
+
     def report(label, what, desc):
         key = 'C17|field|%s|%s' % (label, what)
         if key not in mon.viol:
